@@ -768,7 +768,10 @@ func (in *Interp) exec(fr *frame, instr ssa.Instruction) {
 		p := new(Value)
 		*p = arr
 		fr.env[x] = in.forceTop(p)
-	case *ssa.Go, *ssa.Send, *ssa.Select, *ssa.MakeChan:
+	case *ssa.MakeChan:
+		// channels can be created (constructors do) but never used: send/receive/select abort the path
+		fr.env[x] = &Opaque{Kind: "chan"}
+	case *ssa.Go, *ssa.Send, *ssa.Select:
 		panic(in.abort("unsupported instruction %T in %s (concurrency is not modelled)", instr, fr.fn))
 	default:
 		panic(in.abort("unsupported instruction %T in %s", instr, fr.fn))
